@@ -160,6 +160,11 @@ func (l *Ledger) Balance(addr wallet.Address, asset uint64) *big.Int {
 	return new(big.Int)
 }
 
+// Reg2Tx returns the registered state of the channel as a transaction.
+func (c *Chan) Reg2Tx() *channel.Transaction {
+	return &channel.Transaction{State: c.Reg.State, Sigs: c.Reg.Sigs}
+}
+
 // Calls returns a copy of the call log.
 func (l *Ledger) Calls() []Call {
 	l.mu.Lock()
